@@ -5,6 +5,7 @@ pub mod c01;
 pub mod c02;
 pub mod c09;
 pub mod c10;
+pub mod c11;
 pub mod c12;
 
 pub struct Prop {
@@ -19,6 +20,7 @@ pub static PROPS: &[Prop] = &[
 	Prop { id: "C03", run: c02::run_c03, replay: c02::replay_c03 },
 	Prop { id: "C09", run: c09::run, replay: c09::replay },
 	Prop { id: "C10", run: c10::run, replay: c10::replay },
+	Prop { id: "C11", run: c11::run, replay: c11::replay },
 	Prop { id: "C12", run: c12::run, replay: c12::replay },
 ];
 
